@@ -567,7 +567,7 @@ class Process(StateMachine, persistence.Savable, metaclass=ProcessStateMachineMe
         exception: Optional[BaseException],
         trace: Optional[TracebackType],
     ) -> None:
-        if self.state != process_states.ProcessState.EXCEPTED:
+        if not self.has_terminated():
             self.fail(exception, trace)
 
     @contextlib.contextmanager
@@ -1211,16 +1211,22 @@ class Process(StateMachine, persistence.Savable, metaclass=ProcessStateMachineMe
         return self._state.resume(*args)  # type: ignore
 
     @event(to_states=process_states.Excepted)
-    def fail(self, exception: Optional[BaseException], trace_back: Optional[TracebackType]) -> None:
+    def fail(self, exception: Optional[BaseException], trace_back: Optional[TracebackType]) -> Optional[bool]:
         """
         Fail the process in response to an exception
         :param exception: The exception that caused the failure
         :param trace_back: Optional exception traceback
+        :return: False if the process has already terminated
         """
+        if self.has_terminated():
+            # A terminated process cannot change state anymore
+            return False
+
         new_state = self._create_state_instance(
             process_states.ProcessState.EXCEPTED, exception=exception, trace_back=trace_back
         )
         self.transition_to(new_state)
+        return None
 
     def kill(self, msg_text: Optional[str] = None) -> Union[bool, asyncio.Future]:
         """
